@@ -737,5 +737,16 @@ package geometry
 //@   modifies baseSeries.index
 //@   ensures series.index == nil && IndexInv(series)
 //@   ensures forall r *baseSeries :: r != series ==> r.index == old(r.index)
+// setCompressed: stamps the total length into header bytes 1..4 (little endian) and installs a private copy:
+// the kind tag and every byte past the header are the caller's, the length is the slice's
+//@ func baseSeries.setCompressed
+//@   props C04 C05 C01 C02 C03 C08 C12
+//@   requires series != nil && len(data) >= 5 && len(data) < 4294967296
+//@   modifies baseSeries.index
+//@   ensures Bytes: series.index != nil && isBytes(series.index)
+//@   ensures Len: len(unboxBytes(series.index)) == len(data)
+//@   ensures Tag: unboxBytes(series.index)[0] == old(data[0])
+//@   ensures Body: forall k int :: 5 <= k && k < len(data) ==> unboxBytes(series.index)[k] == old(data[k])
+//@   ensures Frame: forall r *baseSeries :: r != series ==> r.index == old(r.index)
 //@ func IndexKind.String
 //@   props C05
